@@ -89,11 +89,11 @@ func runC20(c *Ctx) {
 			return g
 		}
 		class := func(in ssa.Instruction) string {
-			ret, ok := in.(*ssa.Return)
+			ret, ok := core.AsReturn(in)
 			if !ok || len(ret.Results) != 1 {
 				return ""
 			}
-			v := core.ResolveLocalLoad(ret.Results[0])
+			v := core.ResolveLocalLoad(core.Res(ret, 0))
 			if core.IsNilConst(v) {
 				return "ok"
 			}
